@@ -806,4 +806,119 @@ theorem tamper_blocks_detected {c : CryptoOps} (hc : CryptoLaws c) (s : ObjState
     exact walk_binding c _ _ _ _ _ _ _ _ _ _ hw hg'
   · cases hp
 
+/-! ## binding of the manifest: inversion of block 0, reduction to a signature forgery -/
+
+theorem takeU_ok' {n : Nat} {b r : Bytes} {v : Nat} (h : takeU n b = .ok (v, r)) : ∃ x, b = x ++ r ∧ x.length = n := by
+  unfold takeU at h
+  split at h
+  · injection h with h; injection h with h1 h2
+    subst h2
+    exact ⟨b.take n, (List.take_append_drop n b).symm, by simp; omega⟩
+  · cases h
+
+theorem parseHeader_inv (file b : Bytes) (hdr : Header) (h : parseHeader file = .ok (hdr, b)) :
+    ∃ p, file = p ++ b ∧ p.length = 60 := by
+  unfold parseHeader at h
+  simp only [bind_ok] at h
+  obtain ⟨⟨m1, b1⟩, t1, _, _, ⟨_, b2⟩, t2, ⟨_, b3⟩, t3, _, _, ⟨_, b4⟩, t4, ⟨_, b5⟩, t5, ⟨_, b6⟩, t6, ⟨_, b7⟩, t7,
+    ⟨_, b8⟩, t8, ⟨_, b9⟩, t9, ⟨_, b10⟩, t10, ⟨_, b11⟩, t11, ⟨d12, b12⟩, t12, hp⟩ := h
+  dsimp only at t1 t2 t3 t4 t5 t6 t7 t8 t9 t10 t11 t12 hp
+  simp only [pure, Except.pure] at hp
+  injection hp with hp
+  injection hp with _ hb
+  subst hb
+  have e1 := takeB_ok t1
+  obtain ⟨x2, e2, l2⟩ := takeU_ok' t2
+  obtain ⟨x3, e3, l3⟩ := takeU_ok' t3
+  obtain ⟨x4, e4, l4⟩ := takeU_ok' t4
+  obtain ⟨x5, e5, l5⟩ := takeU_ok' t5
+  obtain ⟨x6, e6, l6⟩ := takeU_ok' t6
+  obtain ⟨x7, e7, l7⟩ := takeU_ok' t7
+  obtain ⟨x8, e8, l8⟩ := takeU_ok' t8
+  obtain ⟨x9, e9, l9⟩ := takeU_ok' t9
+  obtain ⟨x10, e10, l10⟩ := takeU_ok' t10
+  obtain ⟨x11, e11, l11⟩ := takeU_ok' t11
+  have e12 := takeB_ok t12
+  refine ⟨m1 ++ (x2 ++ (x3 ++ (x4 ++ (x5 ++ (x6 ++ (x7 ++ (x8 ++ (x9 ++ (x10 ++ (x11 ++ d12)))))))))), ?_, ?_⟩
+  · rw [e1.1, e2, e3, e4, e5, e6, e7, e8, e9, e10, e11, e12.1]; simp only [List.append_assoc]
+  · simp only [List.length_append, e1.2, l2, l3, l4, l5, l6, l7, l8, l9, l10, l11, e12.2]
+
+/-- what an accepted block 0 was accepted for: the file splits as `manifest ‖ signature ‖ data blocks`, the
+    manifest is the prefix that ends where the signature field begins, and exactly that signature was verified
+    over exactly that prefix (last obligation) -/
+theorem parseBlock0_inv (c : CryptoOps) (rotkh file : Bytes) (b0 : Block0) (h : parseBlock0 c rotkh file = .ok b0) :
+    ∃ (pub sig : Bytes) (obs : List SigOb),
+      b0.obs = obs ++ [⟨b0.hl, pub, file.take (b0.hdr.totalLength - 2 * b0.hl), sig⟩] ∧
+      c.verify (.ecdsa (algOfCoord b0.hl)) pub (file.take (b0.hdr.totalLength - 2 * b0.hl)) sig = true ∧
+      sig.length = 2 * b0.hl ∧
+      file = file.take (b0.hdr.totalLength - 2 * b0.hl) ++ (sig ++ b0.rest) ∧
+      (file.take (b0.hdr.totalLength - 2 * b0.hl)).length = b0.hdr.totalLength - 2 * b0.hl ∧
+      2 * b0.hl ≤ b0.hdr.totalLength := by
+  unfold parseBlock0 at h
+  simp only [bind_ok] at h
+  obtain ⟨⟨hdr, b⟩, hh, hl, _, _, _, _, _, _, _, ⟨h1, b1⟩, th1, _, htl, ⟨cert, b2⟩, tc, ⟨sig, b3⟩, hs, ⟨ci, obs⟩, _, _, _, _,
+    hv, _, _, hp⟩ := h
+  dsimp only at th1 tc hs htl hv hp
+  have hv := check_ok hv
+  have htl := check_ok htl
+  simp only [decide_eq_true_eq] at htl
+  have hs := takeB_ok hs
+  have tc := takeB_ok tc
+  have th1 := takeB_ok th1
+  obtain ⟨p, hp60, lp⟩ := parseHeader_inv _ _ _ hh
+  simp only [pure, Except.pure] at hp
+  injection hp with hp
+  subst hp
+  refine ⟨ci.signPub, sig, obs, rfl, hv, hs.2, ?_⟩
+  dsimp only
+  have e : file = (p ++ (h1 ++ cert)) ++ (sig ++ b3) := by
+    rw [hp60, th1.1, tc.1, hs.1]; simp only [List.append_assoc]
+  have l : (p ++ (h1 ++ cert)).length = hdr.totalLength - 2 * hl := by
+    simp only [List.length_append, lp, th1.2, tc.2]; omega
+  have : file.take (hdr.totalLength - 2 * hl) = p ++ (h1 ++ cert) := by
+    rw [e]; exact List.take_left' l
+  rw [this]; exact ⟨e, l, by omega⟩
+
+theorem romLoad_inv (c : CryptoOps) (dev : Dev) (file : Bytes) (res : RomOk) (h : romLoad c dev file = .ok res) :
+    ∃ b0, parseBlock0 c dev.rotkh file = .ok b0 ∧ res.hdr = b0.hdr ∧ res.obligations = b0.obs := by
+  unfold romLoad at h
+  simp only [bind_ok] at h
+  obtain ⟨b0, hb, _, _, _, _, hp⟩ := h
+  simp only [pure, Except.pure] at hp
+  injection hp with hp
+  subst hp
+  exact ⟨b0, hb, rfl, rfl⟩
+
+theorem getLast_append_single {α} (l : List α) (a : α) : (l ++ [a]).getLast? = some a := by simp
+
+/-- ONE SIGNATURE AUTHENTICATES THE WHOLE FILE.  Any file the loader accepts on the strength of the genuine
+    signature of an export (same signing key, same signature bytes in its signature field) IS that export —
+    otherwise a signature forgery (a different manifest verifying under the old signature) or a hash collision
+    (a different data block with the expected digest) is exhibited.  No idealised assumption. -/
+theorem whole_file_bound {c : CryptoOps} (hc : CryptoLaws c) (s : ObjState) (hg : Good c s) (wf : StateWF c s)
+    (dev : Dev) (obs : List SigOb) (hd : DevOK c dev s obs) (r : Rand) (file' : Bytes) (res : RomOk)
+    (h : romLoad c dev file' = .ok res) (ob : SigOb) (hlast : res.obligations.getLast? = some ob)
+    (hkey : ob.pub = c.pubOf s.cfg.sk) (hsig : ob.sig = sigOf c s r) :
+    file' = (exportSb c s r).2 ∨ Break c := by
+  obtain ⟨b0, hb0, _, hobs⟩ := romLoad_inv c dev file' res h
+  obtain ⟨pub, sig, obs', hob, hver, hlen, hsplit, _, _⟩ := parseBlock0_inv c dev.rotkh file' b0 hb0
+  rw [hobs, hob, getLast_append_single] at hlast
+  injection hlast with hlast
+  subst hlast
+  dsimp only at hkey hsig
+  subst hkey; subst hsig
+  have hcoord : b0.hl = s.cfg.hashLen := by
+    have := wf.sigLen (signedOf c s) r
+    simp only [sigOf] at hlen
+    omega
+  by_cases hm : file'.take (b0.hdr.totalLength - 2 * b0.hl) = signedOf c s
+  · rw [hm] at hsplit
+    rw [hsplit] at h ⊢
+    exact (tamper_blocks_detected hc s hg wf dev obs hd r b0.rest res h).elim
+      (fun e => Or.inl (by rw [e, exportSb_bytes]; simp [signedOf, List.append_assoc])) Or.inr
+  · right
+    refine Break.sigForgery (sigAlgOf s.cfg.hashLen) s.cfg.sk (signedOf c s) _ r (fun e => hm e.symm) ?_
+    rw [hcoord] at hver ⊢
+    exact hver
+
 end SpsdkVerif.Sb31
